@@ -174,6 +174,34 @@ Theorem C21_core_desktop_ref_agrees : forall e c, core_desktop_ref e c = check_o
 Proof. exact core_desktop_ref_eq. Qed.
 Print Assumptions C21_core_desktop_ref_agrees.
 
+(* A *-snap-id / *-publisher-id list is an ALTERNATION: the constraint holds exactly when the list is empty, or the id is
+   set and equals what SOME entry stands for - a $NAME stands for the value it resolves to, and an entry that cannot be
+   resolved (no declaration on the other side, unknown name) matches nothing but does not stop the search: entries after
+   it are still alternatives. Order and position of the entries do not matter. (The monitor uses its own matcher,
+   check_id_ref, a plain recursion over the list; compared with check_id on every case, equality not proved.) *)
+Theorem C21_id_list_is_alternation : forall id ids special, check_id id ids special = true <->
+  ids = [] \/ (id <> [] /\ exists cand, In cand ids /\ resolve special cand <> [] /\ id = resolve special cand).
+Proof. exact check_id_alternation. Qed.
+Print Assumptions C21_id_list_is_alternation.
+
+Theorem C21_id_list_order_irrelevant : forall id ids ids' special,
+  ids <> [] -> ids' <> [] -> (forall c, In c ids <-> In c ids') -> check_id id ids special = check_id id ids' special.
+Proof. exact check_id_order_irrelevant. Qed.
+Print Assumptions C21_id_list_order_irrelevant.
+
+Theorem C21_id_unresolvable_skipped : forall id l1 c l2 special, resolve special c = [] -> l1 ++ l2 <> [] ->
+  check_id id (l1 ++ c :: l2) special = check_id id (l1 ++ l2) special.
+Proof. exact check_id_unresolvable_skipped. Qed.
+Print Assumptions C21_id_unresolvable_skipped.
+
+Example C21_ex_id_list :
+  let sp := one_special (bs "$SLOT_PUBLISHER_ID") [] in   (* the slot snap has no declaration *)
+  check_id (bs "canonical") [bs "$SLOT_PUBLISHER_ID"; bs "canonical"] sp = true /\
+  check_id (bs "canonical") [bs "pub-two"; bs "$SLOT_PUBLISHER_ID"; bs "canonical"] sp = true /\
+  check_id (bs "pub-one") [bs "$SLOT_PUBLISHER_ID"; bs "canonical"] sp = false /\
+  check_id_ref (bs "canonical") [bs "$SLOT_PUBLISHER_ID"; bs "canonical"] sp = true.
+Proof. repeat split. Qed.
+
 (* A plug-names / slot-names regexp (restricted to a top-level alternation of literals, not starting with `$`) matches
    exactly when the WHOLE name equals one of the alternatives: `led|buzzer` matches neither `led-admin` nor `xbuzzer`. The
    same function decides literal attribute-value regexps. (The monitor uses a second, independently written matcher,
